@@ -637,6 +637,9 @@ func (r *runner) accountThreads(f *fileW) {
 			}
 			continue
 		}
+		if !isUp && th.kind != "stat" && (tok == "stale" || tok == "wrote 0 stale") {
+			r.out.flags["mutator-stale-after-last-reference"] = true
+		}
 		endHold := func() { delete(f.holders, th.id) }
 		switch th.kind {
 		case "opentrunc":
@@ -790,39 +793,22 @@ func (r *runner) newFile(ws []string) bool {
 
 // ghostLegal is the caller contract judged on what the harness itself holds (used
 // even when the model has lost track of a history): no close of share access that
-// is not held, no unlink without a directory entry, no I/O without a descriptor,
-// no size change by path without a directory entry, and no close/unlink that takes
-// the descriptor or directory entry away from a parked call that needs it.
+// is not held, no unlink without a directory entry, no read/seek without a
+// descriptor. The mutating calls need nothing from the caller (fix 17054c0): they
+// may be issued on, and may resume on, a file whose last reference is gone.
 func (r *runner) ghostLegal(f *fileW, name string, args []string) bool {
-	needDesc, needLink := false, false
-	for _, th := range f.threads {
-		if done, _ := th.state(); done || th.retired {
-			continue
-		}
-		switch th.kind {
-		case "write", "alloc":
-			needDesc = true
-		case "setattr":
-			needLink = true
-		}
-	}
 	bits := f.rbits + f.wbits
 	switch name {
 	case "unlink":
-		return f.links > 0 && !(needLink && f.links == 1 && bits == 0)
+		return f.links > 0
 	case "close":
 		if len(args) != 2 {
 			return false
 		}
 		rb, wb := b2i(args[0] == "1"), b2i(args[1] == "1")
-		if rb+wb == 0 || rb > f.rbits || wb > f.wbits {
-			return false
-		}
-		return !((needDesc || (needLink && f.links == 0)) && bits-rb-wb == 0)
-	case "read", "seek", "write", "alloc":
+		return rb+wb > 0 && rb <= f.rbits && wb <= f.wbits
+	case "read", "seek":
 		return bits > 0
-	case "setattr":
-		return bits > 0 || f.links > 0
 	}
 	return true
 }
@@ -1318,6 +1304,10 @@ func (r *runner) apply(op string) bool {
 				r.fail("file %d: %s on a file whose last reference is gone returned %q", idx, name, tok)
 			case name == "opentrunc" && tok != "stale":
 				r.fail("file %d: VirtualOpenSelf(O_TRUNC) on a file whose last reference is gone returned %q", idx, tok)
+			case name == "write" && tok != "wrote 0 stale":
+				r.fail("file %d: VirtualWrite on a file whose last reference is gone returned %q", idx, tok)
+			case (name == "alloc" || name == "setattr") && tok != "stale":
+				r.fail("file %d: %s on a file whose last reference is gone returned %q", idx, name, tok)
 			}
 			r.out.flags["use-after-last-reference"] = true
 		}
@@ -1584,7 +1574,7 @@ func makeGen(rnd *hx.Rand) func(r *runner, n int) string {
 		idx := rnd.Intn(len(r.files))
 		f := r.files[idx]
 		size := len(f.content())
-		parkedM, parkedU, live, needDesc, needLink := 0, 0, 0, false, false
+		parkedM, parkedU, live := 0, 0, 0
 		var inPut, held []int
 		for _, th := range f.threads {
 			if th.retired {
@@ -1602,18 +1592,12 @@ func makeGen(rnd *hx.Rand) func(r *runner, n int) string {
 				parkedU++
 			default:
 				parkedM++
-				if th.kind == "write" || th.kind == "alloc" {
-					needDesc = true
-				}
-				if th.kind == "setattr" {
-					needLink = true
-				}
 			}
 		}
 		bits := f.rbits + f.wbits
 		newT := func() int { nextT++; return nextT }
 		add(2, func() string { return fmt.Sprintf("%d link", idx) })
-		if f.links > 0 && !(needLink && f.links == 1 && bits == 0) {
+		if f.links > 0 {
 			add(2, func() string { return fmt.Sprintf("%d unlink", idx) })
 		}
 		add(3+p.writerBias, func() string {
@@ -1626,9 +1610,6 @@ func makeGen(rnd *hx.Rand) func(r *runner, n int) string {
 					rb, wb := rnd.Intn(2) == 1 && f.rbits > 0, rnd.Intn(2) == 1 && f.wbits > 0
 					if !rb && !wb {
 						continue
-					}
-					if (needDesc || (needLink && f.links == 0)) && bits-b2i(rb)-b2i(wb) == 0 {
-						return fmt.Sprintf("%d getattr", idx)
 					}
 					return fmt.Sprintf("%d close %d %d", idx, b2i(rb), b2i(wb))
 				}
@@ -1647,7 +1628,8 @@ func makeGen(rnd *hx.Rand) func(r *runner, n int) string {
 		}
 		if live < maxThreads {
 			if parkedM < maxParked {
-				if bits > 0 {
+				// without a descriptor only now and then (the code does not demand one)
+				if bits > 0 || rnd.Chance(1, 8) {
 					add(4, func() string {
 						return fmt.Sprintf("%d write %d %d %s", idx, newT(), rnd.Intn(size+3), randBytes())
 					})
@@ -1655,7 +1637,7 @@ func makeGen(rnd *hx.Rand) func(r *runner, n int) string {
 						return fmt.Sprintf("%d alloc %d %d %d", idx, newT(), rnd.Intn(size+2), rnd.Intn(5))
 					})
 				}
-				if bits > 0 || f.links > 0 {
+				if bits > 0 || f.links > 0 || rnd.Chance(1, 8) {
 					add(2, func() string {
 						x := []string{"-", "-", "0", "1"}[rnd.Intn(4)]
 						return fmt.Sprintf("%d setattr %d %d %s", idx, newT(), rnd.Intn(size+4), x)
@@ -1723,19 +1705,16 @@ var fixedHistories = [][]string{
 	{"new 0 0 1 1 0 0", "0 write 1 0 5.6", "0 close 0 1", "0 ubegin 2 1 - 0", "0 putdone 2 1", "0 persist", "0 alloc 3 0 4", "0 persist", "0 stat 4 0", "0 setattr 5 1 -", "0 stat 6 0", "0 opentrunc 7 0 1", "0 persist", "0 close 0 1", "0 stat 8 1", "0 stat 9 0"},
 	// last reference is a frozen reader; everything afterwards fails cleanly
 	{"new 0 1 0 0 0 3", "0 ubegin 1 0 - 0", "0 opentrunc 2 0 1", "0 unlink", "0 fread 1 0 3", "0 fclose 1", "0 link", "0 open 1 0", "0 ubegin 3 1 - 0", "0 stat 4 0"},
+	// witness of the defect fixed by 17054c0 (notes/findings/C16-resumed-size-change-after-last-reference.md,
+	// theorems resumed_size_change_hits_released_file / resumed_size_change_fails_cleanly): a size change
+	// by path parks behind a frozen reader, the directory entry goes, the reader is closed (last reference),
+	// the parked call resumes on the released file and must fail cleanly
+	{"new 0 1 0 0 0 3", "0 ubegin 1 0 - 0", "0 setattr 2 1 -", "0 unlink", "0 fclose 1"},
+	// the same for a write and an allocation whose descriptor is closed while they are parked
+	{"new 0 2 0 0 0 0", "0 ubegin 1 0 - 0", "0 open 0 1", "0 write 2 0 1.2", "0 alloc 3 0 4", "0 unlink", "0 close 0 1", "0 fclose 1", "0 write 4 0 9", "0 setattr 5 2 -"},
 }
 
-// A history at the border of the caller contract (run with the contract checks of
-// the harness switched off): a size change by path (VirtualSetAttributes) is issued
-// while the file still has its directory entry, parks in lockMutatingData behind a
-// frozen reader, the directory entry is removed, the frozen reader is closed (last
-// reference: the pool file is released) and the parked call resumes on the
-// released file. Model: theorem C16.resumed_size_change_hits_released_file.
-var boundaryWitness = []string{"new 0 1 0 0 0 3", "0 ubegin 1 0 - 0", "0 setattr 2 1 -", "0 unlink", "0 fclose 1"}
-
-const boundarySig = "fileref size change resumed after the last reference is gone"
-
-const rule = "histories of <=200 ops on <=3 files (bare / FUSE-wrapped / NFS-wrapped pool-backed files): link/unlink, open/close with every share mask incl. partial closes, read/seek/getattr/setperm/chown, write/allocate/size change/O_TRUNC (parking behind frozen readers), uploads and frozen opens with 2 digest functions and 2 delay channels or none (parking behind writers; writer closes during the wait; delay fires), completion of the CAS Put ok|err, frozen reads, output-service stat, persisted cached digest, NFS handle resolution, sticky pool faults (WriteAt none/partial, Truncate, ReadAt), generated from the running implementation's state in a synctest bubble, plus 4 fixed histories; every history ends with complete-all + close-all + unlink-all; non-trivial = the pool file was closed by the disappearance of the last reference, an upload returned a digest, and some call parked (a mutator behind a frozen reader or an upload behind a writer); distinct = hash of the executed op list"
+const rule = "histories of <=200 ops on <=3 files (bare / FUSE-wrapped / NFS-wrapped pool-backed files): link/unlink, open/close with every share mask incl. partial closes, read/seek/getattr/setperm/chown, write/allocate/size change/O_TRUNC (parking behind frozen readers; also issued or resumed after the last reference is gone), uploads and frozen opens with 2 digest functions and 2 delay channels or none (parking behind writers; writer closes during the wait; delay fires), completion of the CAS Put ok|err, frozen reads, output-service stat, persisted cached digest, NFS handle resolution, sticky pool faults (WriteAt none/partial, Truncate, ReadAt), generated from the running implementation's state in a synctest bubble, plus 6 fixed histories; every history ends with complete-all + close-all + unlink-all; non-trivial = the pool file was closed by the disappearance of the last reference, an upload returned a digest, and some call parked (a mutator behind a frozen reader or an upload behind a writer); distinct = hash of the executed op list"
 
 func nontrivial(o *outcome) bool {
 	return o.flags["closed-by-last-reference"] && o.flags["upload-ok"] && (o.flags["mutator-parked"] || o.flags["upload-parked"])
@@ -1817,36 +1796,11 @@ func TestHarness(t *testing.T) {
 		res.Report(f)
 	}
 
-	// The boundary witness: the property text demands that operations on a file whose
-	// last reference is gone fail cleanly; the model predicts a nil dereference.
-	boundary := func() {
-		out := runHistory(t, boundaryWitness, drv, true, nil)
-		account(&out)
-		res.Count("boundary-witness")
-		if out.mismatch != "" {
-			res.Report(hx.Finding{Kind: "mismatch", Property: "C16", History: boundaryWitness, What: out.mismatch,
-				Name:     "correspondence Model/FileRef.lean <-> pool_backed_file_allocator.go on the boundary witness (theorem resumed_size_change_hits_released_file)",
-				Expected: out.expected, Actual: out.actual, Sig: hx.Sig("C16", "fileref", "boundary-mismatch")})
-		}
-		if out.panicMsg != "" {
-			res.Report(hx.Finding{Kind: "violation", Property: "C16", History: boundaryWitness,
-				Name: "C16 monitor: operations on a file whose last reference is gone fail cleanly (no_use_after_close without the caller contract; resumed_size_change_hits_released_file)",
-				What: "a VirtualSetAttributes(size) that was issued while the file still had its directory entry and waited in lockMutatingData behind a frozen reader resumed after the directory entry and the frozen reader were gone and panicked instead of failing cleanly: " + out.panicMsg,
-				Sig:  boundarySig})
-		}
-	}
-
 	if o.Replay != "" {
 		f, err := hx.LoadReplay(o.Replay)
 		if err != nil {
 			fmt.Fprintln(os.Stderr, err)
 			os.Exit(3)
-		}
-		if f.Sig == boundarySig {
-			boundary()
-			res.ModelLines = drv.Lines
-			res.Write(o)
-			return
 		}
 		out := runHistory(t, f.History, drv, false, nil)
 		account(&out)
@@ -1878,8 +1832,6 @@ func TestHarness(t *testing.T) {
 		res.Count("fixed-history")
 		handle(out.executed, out)
 	}
-
-	boundary()
 
 	n := 1200
 	if o.Tier == "thorough" {
